@@ -354,7 +354,7 @@ def tasks(tier, seed):
     from ..pyvc.driver import verify
     from ..contracts import curvesv
     ts = [(task_frames, ()), (task_copies, ()), (task_find_roots_length, ()), (task_float_operands, ())]
-    ts += [(verify, (c, m, q, v)) for c, m, q, v in curvesv.ALL if q != "Curve.eval"]
+    ts += [(verify, (c, m, q, v)) for c, m, q, v in curvesv.ALL if q not in ("Curve.eval", "norm")]
     from ..contracts import facade2
     # "KnotVector arithmetic returns deep copies": every non-in-place operator, copy and deepcopy return a new object and leave the operand alone (all vectors)
     ts += [(verify, (c, m, q, v)) for c, m, q, v in facade2.ALL]
